@@ -224,3 +224,15 @@ for _q in ('bits.Bits._read_dtype_list', 'bitstream.ConstBitStream.readlist', 'b
 for _q in ('methods.pack', 'methods.pack@bits'):
     add_lsb0(_q, custom=REGISTRY[_q].spec, extra_props={'C05'})
 add_lsb0('bitarray_.BitArray.byteswap', mutates_self=True)
+
+
+# ---- iteration in lsb0 mode: the bits from the least significant end, i.e. list(s) == [s[i] for i in range(len(s))] ------------------
+def _iter_lsb0(C, self):
+    from pyvc.interp import SeqVal
+    V = rev(store_bits(self) if self.cls.name == 'BitStore' else bits(self))
+    b = V.bit
+    return ('gen', [SeqVal(V.n, lambda j: (b(j) if isinstance(b(j), bool) else sym.mk_bool(sym._b(b(j)))))])
+
+
+for q in ('bitstore.BitStore.__iter__', 'bits.Bits.__iter__'):
+    add_lsb0(q, custom=_iter_lsb0, extra_props=('C01', 'C08'))
